@@ -373,7 +373,9 @@ def write_evidence(prop, tier, base, agg, wall, nviol, knownhits, replay_paths):
     faults = {k: n for k, n in sorted(st.items()) if k.startswith("fault_") or k.startswith("decodes_under_poison")
               or k in ("mode_refusals", "rejections", "poisoned_allocs", "raw_discard")}
     probes = {k: n for k, n in sorted(st.items()) if k.startswith(("probe_", "ctx_", "matrix_mode_", "foreign_", "c02_",
-                                                                   "create_", "decoded_", "auto_", "bulk_", "capture_", "reputs", "copies", "reject_all_points"))}
+                                                                   "create_", "decoded_", "auto_", "bulk_", "capture_", "reputs", "copies", "reject_all_points",
+                                                                   "edit_restore_", "badtext_", "ops_while_", "assign_as_", "same_size_",
+                                                                   "read_twice", "observer_", "allow_write_inside", "unstamped_"))}
     rule = ("cases = simulated runs: a seeded swarm configuration (buffer size, short raw I/O, allocator poison, time zone, "
             "clock epoch/steps) plus an explicit operation list executed against the real library on the simulated disk; "
             "a run is counted non-trivial when it performed >= 2 successful state-changing operations"
